@@ -1,7 +1,7 @@
 """Surface of a pool class as the control parser sees it, by introspection of /repo's code:
 members in `inspect.getmembers` order; per parameter its name, kind, default presence and the
-*conversion class* obtained by calling the code's own `_get_type_from_annotation` (and the bool
-test of `add_function_arg`).  Rendered (a) as text for the extracted driver, (b) as Coq
+*conversion class* its annotation calls for (decided here by the documented rule, independently of
+the code; `conv_disagreements` cross-checks it against the code's own `_get_type_from_annotation`).  Rendered (a) as text for the extracted driver, (b) as Coq
 (`PoolSurface.v`, regenerated on every run) so that the instantiated obligations are re-checked
 against what the code says now."""
 from __future__ import annotations
@@ -18,8 +18,9 @@ COQ_ANN = {"bool": "ABool", "int": "AInt", "float": "AFloat", "str": "AStr",
            "literal": "ALiteral", "path": "APath", "unknown": "AUnknown"}
 
 
-def conv_class(annotation):
-    """Ask the code under test how it would convert an argument with this annotation."""
+def code_conv_class(annotation):
+    """How the code under test would convert an argument with this annotation (asked of the code
+    itself; used only for the cross-check `conv_disagreements`)."""
     from asyncio_taskpool.control import parser as P
     if annotation is bool or annotation == "bool":
         return "bool"
@@ -30,6 +31,60 @@ def conv_class(annotation):
         return "unknown"
     return {"int": "int", "float": "float", "str": "str", "literal_eval": "literal",
             "resolve_dotted_path": "path", "bool": "bool"}.get(name, "unknown")
+
+
+def conv_class(annotation):
+    """The conversion class of a parameter BY ITS ANNOTATION, decided here - independently of the
+    code under test - by the documented rule: bool -> flag; int / float / str -> themselves;
+    callable annotations (Callable[...], AnyCoroutineFunc, EndCB, CancelCB) -> dotted path;
+    argument containers (Iterable[...], Mapping[...], ArgsT, KwArgsT, *.args / *.kwargs) -> Python
+    literal; `Optional[X]` / `X | None` like X.  Works on postponed (string) annotations and on
+    annotation objects."""
+    import re
+    if annotation is bool:
+        return "bool"
+    if isinstance(annotation, type):
+        return {int: "int", float: "float", str: "str"}.get(annotation, "unknown")
+    if not isinstance(annotation, str):
+        from asyncio_taskpool.internals import types as T
+        from typing import Iterable
+        if any(annotation is t for t in (T.AnyCoroutineFunc, T.EndCB, T.CancelCB)):
+            return "path"
+        if any(annotation is t for t in (T.ArgsT, T.KwArgsT)) or \
+                annotation == Iterable[T.ArgsT] or annotation == Iterable[T.KwArgsT]:
+            return "literal"
+        return "unknown"
+    t = annotation.replace(" ", "")
+    t = t.replace("|None", "").replace("None|", "")
+    m = re.fullmatch(r"Optional\[(.*)\]", t)
+    if m:
+        t = m.group(1)
+    head = t.split("[", 1)[0]
+    if head == "Callable" or t in ("AnyCoroutineFunc", "EndCB", "CancelCB"):
+        return "path"
+    if head in ("Iterable", "Mapping", "ArgsT", "KwArgsT") or t.endswith((".args", ".kwargs")):
+        return "literal"
+    return {"bool": "bool", "int": "int", "float": "float", "str": "str"}.get(t, "unknown")
+
+
+def conv_disagreements(cls):
+    """Parameters whose conversion class according to the code under test differs from the class
+    their annotation calls for: [(member, parameter, by_annotation, by_code)]."""
+    out = []
+    for name, member in inspect.getmembers(cls):
+        if name.startswith("_"):
+            continue
+        fn = member if inspect.isfunction(member) else (
+            member.fset if isinstance(member, property) and member.fset is not None else None)
+        if fn is None:
+            continue
+        for p in inspect.signature(fn).parameters.values():
+            if p.name == "self" or p.annotation is p.empty:
+                continue
+            a, b = conv_class(p.annotation), code_conv_class(p.annotation)
+            if a != b:
+                out.append((name, p.name, a, b))
+    return out
 
 
 def surface(cls):
